@@ -4,6 +4,10 @@ import Mathlib.Tactic.IntervalCases
 import Splipy.Lemmas.C20State
 import Splipy.Lemmas.C20Tol
 import Splipy.Lemmas.C20Vertex
+import Splipy.Lemmas.C20Shared
+import Splipy.Lemmas.C20Obj
+import Splipy.Lemmas.C20Greville
+import Splipy.Lemmas.C20Orient
 
 /-!
 # Property C20 — tolerances are honoured and global settings never leak
@@ -77,7 +81,137 @@ theorem C20_continuity_far [FloorRing K] (b : Basis K) (tol t : K) (htol : 0 < t
     · linarith
     · exfalso; apply hc; linarith
 
+omit [IsStrictOrderedRing K] in
+/-- The C20 model of `continuity` is the shared model `Basis.continuity` (used by C05/C07/C12). -/
+theorem C20_continuity_shared [FloorRing K] (b : Basis K) (tol t : K) :
+    Tol.continuity b tol t = b.continuity tol t :=
+  continuity_eq_shared b tol t
+
+omit [IsStrictOrderedRing K] in
+/-- The C20 model of `knot_spans` is the shared model `Basis.knotSpans`. -/
+theorem C20_knot_spans_shared (b : Basis K) (tol : K) (ghost : Bool) :
+    (b.knotSpans tol ghost).toList = Tol.knotSpans b tol ghost :=
+  knotSpans_eq_shared b tol ghost
+
+/-- `C20_continuity` stated for the shared model `Basis.continuity`. -/
+theorem C20_continuity_shared_model [FloorRing K] (b : Basis K) (tol t : K) (htol : 0 < tol)
+    (hsorted : KnotsSorted b) (hdom : b.start ≤ t ∧ t ≤ b.stop) :
+    (KnotsSeparated b tol → ∀ j, j < b.size → |t - b.kn j| < tol →
+        b.continuity tol t = .ok (some ((b.order : ℤ) - (mult b (b.kn j) : ℤ) - 1))) ∧
+    ((∀ i, i < b.size → b.kn i < t - tol ∨ t + tol ≤ b.kn i) → b.continuity tol t = .ok none) := by
+  rw [← continuity_eq_shared]
+  exact C20_continuity b tol t htol hsorted hdom
+
+/-- **Object level, evaluation.**  For an object of any parametric dimension (rational or not,
+    `tensor` or not): if two parameter tuples are, direction by direction and entry by entry, equal
+    or "a knot and a parameter strictly within `tol` of it" (`NearAll`; the knots of every
+    direction sorted and `2·tol`-separated), `SplineObject.evaluate` returns the same result —
+    value or exception — for both. -/
+theorem C20_obj_evaluate_snap [FloorRing K] (o : Obj K) (tol : K) (htol : 0 < tol)
+    (ps qs : List (List K)) (h : NearAll tol o.bases.toList ps qs) (tensor : Bool) :
+    o.evaluate tol ps tensor = o.evaluate tol qs tensor :=
+  evaluate_congr o htol h tensor
+
+/-- **Object level, derivatives** (generic path of `SplineObject.derivative`): the same, for every
+    list of derivative orders and sides. -/
+theorem C20_obj_derivative_snap [FloorRing K] (o : Obj K) (tol : K) (htol : 0 < tol)
+    (ps qs : List (List K)) (h : NearAll tol o.bases.toList ps qs) (derivs : List ℕ)
+    (above : List Bool) (tensor : Bool) :
+    o.derivativeGeneric tol ps derivs above tensor = o.derivativeGeneric tol qs derivs above tensor :=
+  derivativeGeneric_congr o htol h derivs above tensor
+
+/-- **Fuzz never fails (object level).**  If the knot tuple `qs` is in the domain in every
+    non-periodic direction, evaluation at the fuzzed tuple `ps` (which may lie just outside an
+    end) succeeds and returns the value at `qs`. -/
+theorem C20_obj_evaluate_fuzz_ok [FloorRing K] (o : Obj K) (tol : K) (htol : 0 < tol)
+    (ps qs : List (List K)) (h : NearAll tol o.bases.toList ps qs)
+    (hdom : ∀ bp ∈ List.zip o.bases.toList qs, bp.1.periodic < 0 →
+        ∀ τ ∈ bp.2, bp.1.start ≤ snap bp.1 tol τ ∧ snap bp.1 tol τ ≤ bp.1.stop)
+    (tensor : Bool) (hlen : tensor = true ∨ (qs.map List.length).eraseDups.length = 1) :
+    ∃ r, o.evaluate tol ps tensor = .ok r ∧ o.evaluate tol qs tensor = .ok r :=
+  evaluate_fuzz_ok o htol h hdom tensor hlen
+
+/-- The same for the generic derivative path (non-rational, or total order `≤ 1`: the generic
+    rational path raises `RuntimeError` above that by design). -/
+theorem C20_obj_derivative_fuzz_ok [FloorRing K] (o : Obj K) (tol : K) (htol : 0 < tol)
+    (ps qs : List (List K)) (h : NearAll tol o.bases.toList ps qs)
+    (hdom : ∀ bp ∈ List.zip o.bases.toList qs, bp.1.periodic < 0 →
+        ∀ τ ∈ bp.2, bp.1.start ≤ snap bp.1 tol τ ∧ snap bp.1 tol τ ≤ bp.1.stop)
+    (derivs : List ℕ) (above : List Bool) (tensor : Bool)
+    (hlen : tensor = true ∨ (qs.map List.length).eraseDups.length = 1)
+    (hrat : o.rational = false ∨ derivs.sum ≤ 1) :
+    ∃ r, o.derivativeGeneric tol ps derivs above tensor = .ok r ∧
+      o.derivativeGeneric tol qs derivs above tensor = .ok r :=
+  derivativeGeneric_fuzz_ok o htol h hdom derivs above tensor hlen hrat
+
+/-- Concrete instance: a curve evaluated strictly within `tol` of the end of its (non-periodic or
+    periodic) basis — inside or outside — does not raise and gives the end point. -/
+theorem C20_curve_fuzz_at_end [FloorRing K] (o : Obj K) (b : Basis K) (hb : o.bases = #[b])
+    (tol : K) (htol : 0 < tol) (hs : KnotsSorted b) (hsep : KnotsSeparated b tol)
+    (hord : 0 < b.order) (hsz : 2 * b.order ≤ b.size) (t : K) (hnear : |t - b.stop| < tol) :
+    ∃ r, o.evaluate tol [[t]] true = .ok r ∧ o.evaluate tol [[b.stop]] true = .ok r :=
+  curve_fuzz_at_end o b hb htol hs hsep hord hsz t hnear
+
+/-- **Greville points.**  `g = grevilleAt b i` (the value `BSplineBasis.greville` computes,
+    `greville_getD`): (1) `τ_{i+1} ≤ g ≤ τ_{i+p-1}`; (2) snapping keeps it in that knot interval;
+    (3) where `τ_{i+1} = τ_{i+p-1}` (always for `p = 2`; knots of multiplicity `≥ p-1`) `g` is that
+    knot, is a fixed point of `snap`, and every `t` strictly within `tol` of it — e.g. its float
+    version — is snapped onto it. -/
+theorem C20_greville (b : Basis K) (tol : K) (htol : 0 < tol) (hs : KnotsSorted b)
+    (hsep : KnotsSeparated b tol) (hp : 2 ≤ b.order) (i : ℕ) (hi : i + b.order - 1 < b.size) :
+    (b.kn (i + 1) ≤ grevilleAt b i ∧ grevilleAt b i ≤ b.kn (i + b.order - 1)) ∧
+    (b.kn (i + 1) ≤ snap b tol (grevilleAt b i) ∧
+      snap b tol (grevilleAt b i) ≤ b.kn (i + b.order - 1)) ∧
+    (b.kn (i + 1) = b.kn (i + b.order - 1) →
+      grevilleAt b i = b.kn (i + 1) ∧ snap b tol (grevilleAt b i) = grevilleAt b i ∧
+      ∀ t, |t - grevilleAt b i| < tol → snap b tol t = grevilleAt b i) :=
+  greville_snap b tol htol hs hsep hp i hi
+
+/-- **`np.allclose` with the configured tolerances** (entry-wise `|a − b| ≤ atol + rtol·|b|`):
+    equal arrays are close for all non-negative tolerances; with zero tolerances closeness is
+    equality; an entry farther apart than `atol + rtol·|b|` makes the arrays not close. -/
+theorem C20_allclose (rtol atol : K) (a b : List K) :
+    (0 ≤ rtol → 0 ≤ atol → Tol.allclose rtol atol a a = true) ∧
+    (Tol.allclose 0 0 a b = true ↔ a = b) ∧
+    (∀ i (h1 : i < a.length) (h2 : i < b.length), atol + rtol * |b[i]| < |a[i] - b[i]| →
+        Tol.allclose rtol atol a b = false) :=
+  ⟨fun hr ha => allclose_self rtol atol hr ha a, allclose_zero_iff a b,
+   fun i h1 h2 hfar => allclose_false_of_far rtol atol a b i h1 h2 hfar⟩
+
 end tolerance
+
+section orientation
+open Splipy.MP
+
+/-- **`Orientation.compute` and the control-point tolerances.**  `computeTol rtol atol` is
+    `Orientation.compute` with `np.allclose(cps_a, test_b, rtol, atol)` instead of the exact
+    comparison of `Model/Orientation.lean`.
+    (1) the exact model is the instance `rtol = atol = 0`;
+    (2) a candidate orientation accepted by the exact comparison is accepted for all non-negative
+        tolerances (exactly equal nets are `allclose`);
+    (3) nets of which some coordinate of some control point differs by more than `atol + rtol·|b|`
+        are not `allclose` (such a candidate is rejected);
+    (4) a candidate accepted with tolerances has every coordinate within `atol + rtol·|b|`. -/
+theorem C20_orientation_tolerance (rtol atol : ℚ) :
+    (∀ a b : MP.Obj, computeTol 0 0 a b = Orientation.compute a b) ∧
+    (0 ≤ rtol → 0 ≤ atol → ∀ na nb a b o, orientationFits na nb a b o = true →
+        orientationFitsTol rtol atol na nb a b o = true) ∧
+    (∀ (na nb : NdArr (List ℚ)) (i c : ℕ) (h1 : i < na.data.size) (h2 : i < nb.data.size)
+        (c1 : c < na.data[i].length) (c2 : c < nb.data[i].length),
+        atol + rtol * |nb.data[i][c]| < |na.data[i][c] - nb.data[i][c]| →
+        netsAllclose rtol atol na nb = false) ∧
+    (∀ na nb a b o, orientationFitsTol rtol atol na nb a b o = true →
+      ∀ i (h1 : i < na.data.size) (h2 : i < (o.mapArray nb).data.size),
+        na.data[i].length = (o.mapArray nb).data[i].length ∧
+        ∀ c (c1 : c < na.data[i].length) (c2 : c < (o.mapArray nb).data[i].length),
+          |na.data[i][c] - (o.mapArray nb).data[i][c]|
+            ≤ atol + rtol * |(o.mapArray nb).data[i][c]|) :=
+  ⟨computeTol_zero,
+   fun hr ha na nb a b o h => orientationFitsTol_of_exact rtol atol hr ha na nb a b o h,
+   fun na nb i c h1 h2 c1 c2 hfar => netsAllclose_false_of_far rtol atol na nb i c h1 h2 c1 c2 hfar,
+   fun na nb a b o h => orientationFitsTol_close rtol atol na nb a b o h⟩
+
+end orientation
 
 section vertexdict
 variable {K : Type} [Field K] [LinearOrder K] [IsStrictOrderedRing K] {V : Type}
@@ -225,3 +359,29 @@ example : validateDomain C20_exampleBasis (1 / 10) [2 + 1 / 5] = .error .value :
 example : restoresB ["a", "b"] (fixedProg ["b", "a", "c"]) = true := by decide
 example : restoresB ["a", "b"] (unprotectedProg ["b", "a", "c"]) = false := by decide
 example : restoresB ["a", "b"] (fixedProg ["a"]) = false := by decide
+
+/-- a curve on `C20_exampleBasis` -/
+def C20_exampleCurve : Obj ℚ :=
+  { bases := #[C20_exampleBasis], cps := { shape := [3, 1], data := #[0, 1, 4] }, rational := false }
+
+example : NearAll (1 / 10 : ℚ) C20_exampleCurve.bases.toList [[2 + 1 / 20, 1 / 2]] [[2, 1 / 2]] := by
+  have hs : KnotsSorted C20_exampleBasis := by
+    intro i j hij hj
+    have hj' : j < 5 := hj
+    interval_cases j <;> interval_cases i <;> simp [C20_exampleBasis, Basis.kn]
+  have hsep : KnotsSeparated C20_exampleBasis (1 / 10) := by
+    intro i j hi hj
+    have hi' : i < 5 := hi
+    have hj' : j < 5 := hj
+    interval_cases i <;> interval_cases j <;>
+      norm_num [C20_exampleBasis, Basis.kn, abs_of_nonneg, abs_of_nonpos]
+  refine ⟨⟨hs, hsep, ?_⟩, trivial⟩
+  refine List.Forall₂.cons (Or.inr ⟨4, by decide, by simp [C20_exampleBasis, Basis.kn], ?_⟩)
+    (List.Forall₂.cons (Or.inl rfl) List.Forall₂.nil)
+  norm_num [C20_exampleBasis, Basis.kn, abs_of_nonneg]
+
+example : (C20_exampleCurve.evaluate (1 / 10) [[2 + 1 / 20]] true).isOk = true := by decide +kernel
+example : (C20_exampleCurve.evaluate (1 / 10) [[2 + 1 / 5]] true).isOk = false := by decide +kernel
+example : grevilleAt C20_exampleBasis 1 = 1 := by decide +kernel
+example : Tol.allclose (0 : ℚ) (1 / 10) [1, 2] [1 + 1 / 20, 2] = true := by decide +kernel
+example : Tol.allclose (0 : ℚ) (1 / 10) [1, 2] [1 + 1 / 5, 2] = false := by decide +kernel
